@@ -256,7 +256,7 @@ func (l *Lexer) shiftRawText() []byte {
 						return l.r.Shift()
 					}
 				} else if l.rawTag == Script && l.r.Peek(1) == '!' && l.r.Peek(2) == '-' && l.r.Peek(3) == '-' {
-					l.r.Move(4)
+					l.r.Move(2) // the dashes may belong to the end of the escape already, as in <!-->
 					inScript := false
 					for {
 						c := l.r.Peek(0)
@@ -313,6 +313,15 @@ func (l *Lexer) shiftRawText() []byte {
 func (l *Lexer) readMarkup() (TokenType, []byte) {
 	if l.at('-', '-') {
 		l.r.Move(2)
+		if l.r.Peek(0) == '>' || l.at('-', '>') {
+			// <!--> and <!---> are empty comments
+			l.text = l.r.Lexeme()[4:]
+			if l.r.Peek(0) == '-' {
+				l.r.Move(1)
+			}
+			l.r.Move(1)
+			return CommentToken, l.r.Shift()
+		}
 		for {
 			if l.r.Peek(0) == 0 && l.r.Err() != nil {
 				l.text = l.r.Lexeme()[4:]
